@@ -195,6 +195,57 @@ def parse_triples(text: str):
     return bad, int(m.group(2)), int(m.group(3))
 
 
+# ---------------------------------------------------------------- running the implementation under a deadline
+class Wedged(Exception):
+    """the implementation did not come back within the deadline (a blocked call, e.g. send_message waiting for a thread that is not running)"""
+
+
+def with_deadline(fn, seconds=30.0):
+    """Run fn() on a daemon thread; raise Wedged (with the stack of the blocked thread) if it does not finish in time."""
+    import threading
+    import traceback
+
+    box = {}
+
+    def work():
+        try:
+            box["result"] = fn()
+        except BaseException as exc:  # noqa: BLE001
+            box["error"] = exc
+
+    th = threading.Thread(target=work, daemon=True, name="_verif_deadline")
+    th.start()
+    th.join(seconds)
+    if th.is_alive():
+        frame = sys._current_frames().get(th.ident)
+        stack = "".join(traceback.format_stack(frame)[-8:]) if frame else "?"
+        raise Wedged(stack)
+    if "error" in box:
+        raise box["error"]
+    return box["result"]
+
+
+def guarded(fn, what, wedged, seconds=40.0):
+    """fn() under a deadline; a blocked or unsettled implementation is recorded in `wedged` and None is returned"""
+    if len(wedged) >= 3:
+        return None
+    try:
+        return with_deadline(fn, seconds)
+    except Wedged as exc:
+        wedged.append({"input": what, "blocked_in": str(exc)})
+    except RuntimeError as exc:
+        if "settle" not in str(exc) and "did not" not in str(exc):
+            raise
+        wedged.append({"input": what, "blocked_in": str(exc)})
+    return None
+
+
+def report_wedged(report, wedged, proof):
+    for w in wedged[:2]:
+        report.violation({"kind": "counterexample", "what": "the implementation blocked or never came to rest while this input was played (a library call did not return in time)",
+                          **w, "broken_obligation": proof.get("broken")}, True, tag="wedged")
+
+
 # ---------------------------------------------------------------- reporting
 class Report:
     def __init__(self, prop: str, tier: str):
